@@ -1,13 +1,14 @@
 // C08 correspondence harness: the real FairThreadPool (n worker fibers) x submitter fibers x one stopper fiber
-// (Stop / SoftStop / HardStop, racing with the submitters or started after they finished), then Wait.
-// All schedules under a preemption bound (or random schedules).  Emits canonical traces for
+// (Stop / SoftStop / HardStop, racing with the submitters or started after they were joined), then Wait, then one
+// more Submit.  All schedules under a preemption bound and/or random schedules.  Emits canonical traces for
 // `ymdriver validate pool` and checks the property's monitors directly on the implementation.
 //
-// Trace objects (auto-named by first appearance, checked in Monitor): m0 = FairThreadPool::_m,
-// q0 = the wait queue inside the fiber mutex _m (scheduler level, not modelled), q1 = the wait queue of the
-// condition variable FairThreadPool::_idle.  Because the first operation of every run is a `lock` of _m
-// followed by the `notify_one` of its internal queue when it is unlocked, this order is fixed; to be
-// independent of it the harness renames the three objects explicitly (`m`, `mq`, `cv`) from the pool's layout.
+// Threads: w<i> = worker fibers (created inside the pool's constructor, therefore named here by the order of their
+//          first traced operation; workers are symmetric), s<i> = submitters, x = the stopper, r = the root fiber.
+// Objects: m  = FairThreadPool::_m (the fiber mutex and its internal wait queue have the same address, so the
+//               queue's park / wake / notify_one appear as `m park|wake|notify_one`: scheduler level),
+//          cv = FairThreadPool::_idle.
+// Jobs:    j<i>.<k> = k-th job of submitter i; `late` = the job the root submits after Wait returned.
 #include <common/vx.hpp>
 
 #include <yaclib/exe/job.hpp>
@@ -19,21 +20,21 @@
 namespace {
 
 struct Scenario {
-  int workers;                // 1 | 2
-  std::vector<int> subs;      // jobs per submitter
-  std::string stop;           // stop | soft | hard
-  bool race;                  // stopper races with the submitters / starts after they were joined
+  int workers;            // 1 | 2
+  std::vector<int> subs;  // jobs per submitter
+  std::string stop;       // stop | soft | hard
+  bool race;              // stopper races with the submitters / starts after they were joined
   std::string Header() const {
     std::string s;
     for (auto k : subs) s += (s.empty() ? "" : ",") + std::to_string(k);
-    return "pool workers=" + std::to_string(workers) + " subs=" + s + " stop=" + stop + " race=" + (race ? "1" : "0") + " late=1";
+    return "pool workers=" + std::to_string(workers) + " subs=" + s + " stop=" + stop + " race=" + (race ? "1" : "0") +
+           " late=1";
   }
 };
 
 struct Obs {
   std::map<std::string, int> called, dropped;
   std::vector<std::string> call_order;
-  std::vector<std::string> accepted_guess;  // not observable directly: see Monitor
   bool wait_returned = false;
   bool call_after_wait = false;
 };
@@ -72,23 +73,18 @@ template struct Rob<CTag, &yaclib::FairThreadPool::_idle>;
 
 int gWorkersNamed = 0;
 
-void NameWorkerIfNew() {
-  auto& ctx = *vx::gCtx;
-  auto id = ctx.CurId();
-  if (ctx.tids.find(id) == ctx.tids.end()) {
-    ctx.tids[id] = "w" + std::to_string(gWorkersNamed++);
-  }
-}
-
 void InstallNamingHook() {
-  // worker fibers are created inside the pool's constructor and therefore unnamed: name them w0, w1, … by the
-  // order of their first traced operation (workers are symmetric in the model)
+  // every other fiber of a scenario is a vx::Thread (named before its first operation) or the root
   auto& h = yaclib::verif::gHooks;
   h.on_sync = [](void* c, const void* obj, int op, int res) {
-    NameWorkerIfNew();
-    static_cast<vx::Ctx*>(c)->OnSync(obj, op, res);
+    auto& ctx = *static_cast<vx::Ctx*>(c);
+    auto id = ctx.CurId();
+    if (ctx.tids.find(id) == ctx.tids.end()) ctx.tids[id] = "w" + std::to_string(gWorkersNamed++);
+    ctx.OnSync(obj, op, res);
   };
 }
+
+std::string JobName(std::size_t i, int k) { return "j" + std::to_string(i) + "." + std::to_string(k); }
 
 void RunScenario(const Scenario& sc) {
   gObs = Obs{};
@@ -97,14 +93,12 @@ void RunScenario(const Scenario& sc) {
   for (std::size_t i = 0; i < sc.subs.size(); ++i) {
     for (int k = 0; k < sc.subs[i]; ++k) {
       auto j = std::make_unique<TJob>();
-      j->name = "j" + std::to_string(i) + "." + std::to_string(k);
+      j->name = JobName(i, k);
       jobs[i].push_back(std::move(j));
     }
   }
   auto pool = yaclib::MakeFairThreadPool(static_cast<std::uint64_t>(sc.workers));
   {
-    // fiber::Mutex reports itself and its internal wait queue (first member, same address) under one name;
-    // the condition variable's only member is its wait queue
     auto& ctx = *vx::gCtx;
     ctx.NameObj(&((*pool).*Get(MTag{})).GetImpl(), "m");
     ctx.NameObj(&((*pool).*Get(CTag{})), "cv");
@@ -133,30 +127,45 @@ void RunScenario(const Scenario& sc) {
   pool->Wait();
   gObs.wait_returned = true;
   vx::Ev("wait_returned");
-  // "every later Submit drops"
-  TJob late;
+  TJob late;  // "every later Submit drops"
   late.name = "late";
   vx::Ev("submit late");
   pool->Submit(late);
 }
 
+std::string Field(const std::string& l, int k) {
+  std::size_t b = 0;
+  for (int i = 0; i < k; ++i) {
+    b = l.find(' ', b);
+    if (b == std::string::npos) return "";
+    ++b;
+  }
+  auto e = l.find(' ', b);
+  return l.substr(b, e == std::string::npos ? std::string::npos : e - b);
+}
+
+// The monitors state exactly what the property says, on what the implementation did (independent of the model).
 std::string Monitor(const Scenario& sc, bool done) {
   auto& trace = vx::gCtx->trace;
-  if (!done) return "";  // reported as deadlock by the explorer
-  // each job Called xor Dropped exactly once
+  if (!done) return "";  // reported as deadlock by the explorer: Wait never returned / a fiber is stuck
+  for (auto& l : trace) {
+    if (Field(l, 1) == "M" && Field(l, 2) != "m" && Field(l, 2) != "cv") return "harness: unexpected sync object in " + l;
+    if (Field(l, 0) == "t?") return "harness: unnamed fiber in " + l;
+  }
+  // every job Called xor Dropped, exactly once
   for (std::size_t i = 0; i < sc.subs.size(); ++i) {
     for (int k = 0; k < sc.subs[i]; ++k) {
-      std::string n = "j" + std::to_string(i) + "." + std::to_string(k);
+      auto n = JobName(i, k);
       int c = gObs.called[n], d = gObs.dropped[n];
       if (c + d != 1) return "job " + n + " Called " + std::to_string(c) + " times and Dropped " + std::to_string(d) + " times";
     }
   }
+  // after Wait returned nothing runs, and a later Submit is Dropped
   if (gObs.call_after_wait) return "a job was Called after Wait returned";
   if (gObs.called["late"] != 0 || gObs.dropped["late"] != 1) return "a Submit after Wait returned was not Dropped exactly once";
-  // Stop / SoftStop never drop an accepted job: a job whose Submit finished before the stopper started must be Called
-  // (its acceptance precedes the stop); with HardStop it may be Dropped instead.
-  // position of `x E stop …` in the trace; jobs whose submit *returned* before it = those followed by another
-  // event of the same submitter (next submit) or whose submitter was joined (race=0: all of them)
+  // acceptance as far as it can be observed from outside: Submit(j) did not Drop j itself.  It took effect in the
+  // submitter's critical section, i.e. at its unlock of m (= push position).  Accepted before the stop = that
+  // unlock precedes the moment the stopper was started.
   std::size_t stop_pos = trace.size();
   for (std::size_t p = 0; p < trace.size(); ++p) {
     if (trace[p].rfind("x E stop ", 0) == 0) {
@@ -164,107 +173,98 @@ std::string Monitor(const Scenario& sc, bool done) {
       break;
     }
   }
-  if (sc.stop != "hard") {
-    for (std::size_t i = 0; i < sc.subs.size(); ++i) {
-      std::string me = "s" + std::to_string(i);
-      for (int k = 0; k < sc.subs[i]; ++k) {
-        std::string n = "j" + std::to_string(i) + "." + std::to_string(k);
-        // Submit(n) has returned before the stop began iff the submitter's unlock+notify for n are before stop_pos:
-        // find "submit n", then the submitter's `notify_one` on cv after it
-        bool returned_before = false;
-        bool in = false;
-        for (std::size_t p = 0; p < stop_pos; ++p) {
-          if (trace[p] == me + " E submit " + n) in = true;
-          else if (in && trace[p].rfind(me + " M cv notify_one", 0) == 0) {
-            returned_before = true;
-            break;
-          }
+  std::vector<std::pair<std::size_t, std::string>> pushes, rejects;
+  std::vector<std::string> accepted_before_stop;
+  for (std::size_t p = 0; p < trace.size(); ++p) {
+    auto& l = trace[p];
+    if (Field(l, 1) != "E" || Field(l, 2) != "submit") continue;
+    auto t = Field(l, 0);
+    auto n = Field(l, 3);
+    std::size_t u = trace.size();
+    bool rejected = false;
+    for (std::size_t k = p + 1; k < trace.size(); ++k) {
+      auto& m = trace[k];
+      if (Field(m, 0) != t) continue;
+      if (u == trace.size() && Field(m, 1) == "M" && Field(m, 2) == "m" && Field(m, 3) == "unlock") u = k;
+      if (Field(m, 1) == "E" && Field(m, 2) == "drop" && Field(m, 3) == n) rejected = true;
+      if (Field(m, 1) == "E" && Field(m, 2) == "submit") break;
+    }
+    if (u == trace.size()) return "Submit(" + n + ") never released the pool mutex";
+    if (!rejected) {
+      pushes.emplace_back(u, n);
+      if (u < stop_pos) accepted_before_stop.push_back(n);
+    } else {
+      if (u < stop_pos) return "job " + n + " was Dropped by Submit although the pool had not been stopped";
+      rejects.emplace_back(u, n);
+    }
+  }
+  // SoftStop stops only when no job is queued or running: when a Submit finds the pool stopped, every job
+  // accepted before has already been Called
+  if (sc.stop == "soft") {
+    for (auto& [ru, rn] : rejects) {
+      for (auto& [pu, pn] : pushes) {
+        if (pu > ru) continue;
+        bool called_before = false;
+        for (std::size_t k = 0; k < ru; ++k) {
+          if (Field(trace[k], 1) == "E" && Field(trace[k], 2) == "call" && Field(trace[k], 3) == pn) called_before = true;
         }
-        if (returned_before && gObs.called[n] != 1) return "job " + n + " was accepted before " + sc.stop + " but not Called";
+        if (!called_before)
+          return "SoftStop: the pool was stopped (Submit Dropped " + rn + ") while accepted job " + pn + " was still queued or running";
       }
     }
   }
-  // single worker: start order = acceptance order.  Acceptance order = order of the submitters' unlocks of m
-  // that are followed by a notify (accepted) — reconstructed from the trace
+  // Stop / SoftStop still run everything accepted before them
+  if (sc.stop != "hard") {
+    for (auto& n : accepted_before_stop) {
+      if (gObs.called[n] != 1) return "job " + n + " was accepted before " + sc.stop + " but not Called";
+    }
+  }
+  // an accepted job is Dropped only by HardStop
+  for (auto& [p, n] : pushes) {
+    if (sc.stop != "hard" && gObs.dropped[n] != 0) return "accepted job " + n + " was Dropped although nobody called HardStop";
+  }
+  // single worker: jobs start in acceptance order
   if (sc.workers == 1) {
-    std::vector<std::string> acc;
-    std::map<std::string, std::string> cur;  // submitter -> job being submitted
-    for (std::size_t p = 0; p < trace.size(); ++p) {
-      auto& l = trace[p];
-      auto sp = l.find(' ');
-      std::string t = l.substr(0, sp);
-      if (l.find(" E submit ") != std::string::npos) cur[t] = l.substr(l.find(" E submit ") + 10);
-      else if (l.find(" M cv notify_one") != std::string::npos && cur.count(t)) {
-        acc.push_back(cur[t]);
-        cur.erase(t);
-      }
-    }
-    // acc is in notify order, not in push order; push order = order of the unlocks.  Recompute with unlock positions.
-    std::vector<std::pair<std::size_t, std::string>> pushes;
-    cur.clear();
-    std::map<std::string, std::size_t> unlock_pos;
-    for (std::size_t p = 0; p < trace.size(); ++p) {
-      auto& l = trace[p];
-      auto sp = l.find(' ');
-      std::string t = l.substr(0, sp);
-      if (t.empty() || (t[0] != 's' && t[0] != 'r')) continue;
-      if (l.find(" E submit ") != std::string::npos) cur[t] = l.substr(l.find(" E submit ") + 10);
-      else if (l.find(" M m unlock") != std::string::npos) unlock_pos[t] = p;
-      else if (l.find(" M cv notify_one") != std::string::npos && cur.count(t)) {
-        pushes.emplace_back(unlock_pos[t], cur[t]);
-        cur.erase(t);
-      }
-    }
     std::sort(pushes.begin(), pushes.end());
-    std::vector<std::string> want;
-    for (auto& [p, n] : pushes) want.push_back(n);
-    // the calls must be a prefix of the push order (HardStop may cut it)
-    if (gObs.call_order.size() > want.size()) return "more jobs started than were accepted";
+    if (gObs.call_order.size() > pushes.size()) return "more jobs started than were accepted";
     for (std::size_t i = 0; i < gObs.call_order.size(); ++i) {
-      if (gObs.call_order[i] != want[i]) return "single worker: start order differs from acceptance order at position " + std::to_string(i);
+      if (gObs.call_order[i] != pushes[i].second)
+        return "single worker: start order differs from acceptance order at position " + std::to_string(i);
     }
-    if (sc.stop != "hard" && gObs.call_order.size() != want.size()) return "an accepted job was never started";
+    if (sc.stop != "hard" && gObs.call_order.size() != pushes.size()) return "an accepted job was never started";
   }
   return "";
 }
 
-// make `notify_one 1` lines say which fiber they woke: the fiber whose `wake` on the same queue comes first
-// among the fibers parked there (earliest-deadline matching; the fiber backend has no spurious wake-ups, so
-// every wake is matched by exactly one notification)
+// make `notify_one 1` lines say which fiber they woke: among the fibers parked on that queue and not yet claimed by
+// an earlier notification, the one whose `wake` comes first (earliest-deadline matching; the fiber backend has no
+// spurious wake-ups, so every wake is matched by exactly one notification and the matching is always consistent
+// with what the model allows: the chosen fiber was parked at the time of the notification)
 void ResolveNotifies(std::vector<std::string>& trace) {
-  struct Parked { std::string t; std::size_t wake; bool taken; };
-  auto field = [](const std::string& l, int k) {
-    std::size_t b = 0;
-    for (int i = 0; i < k; ++i) b = l.find(' ', b) + 1;
-    auto e = l.find(' ', b);
-    return l.substr(b, e == std::string::npos ? std::string::npos : e - b);
-  };
   for (std::size_t p = 0; p < trace.size(); ++p) {
     auto& l = trace[p];
-    if (field(l, 1) != "M" || field(l, 3) != "notify_one" || field(l, 4) != "1") continue;
-    std::string q = field(l, 2);
-    // fibers parked on q at position p: park before p without a wake in between; their wake position after p
-    std::map<std::string, std::size_t> parked;  // fiber -> park position
-    std::map<std::string, std::string> assigned;  // fiber -> taken by an earlier notify (suffix already appended)
-    std::vector<std::string> taken;
+    if (Field(l, 1) != "M" || Field(l, 3) != "notify_one" || Field(l, 4) != "1") continue;
+    std::string q = Field(l, 2);
+    std::vector<std::string> parked, claimed;
     for (std::size_t k = 0; k < p; ++k) {
       auto& m = trace[k];
-      if (field(m, 1) != "M" || field(m, 2) != q) continue;
-      auto op = field(m, 3);
-      if (op == "park") parked[field(m, 0)] = k;
+      if (Field(m, 1) != "M" || Field(m, 2) != q) continue;
+      auto op = Field(m, 3);
+      auto t = Field(m, 0);
+      if (op == "park") parked.push_back(t);
       else if (op == "wake") {
-        parked.erase(field(m, 0));
-        taken.erase(std::remove(taken.begin(), taken.end(), field(m, 0)), taken.end());
-      } else if (op == "notify_one" && field(m, 4) == "1") taken.push_back(field(m, 5));
-      else if (op == "notify_all") for (auto& [t, _] : parked) taken.push_back(t);
+        parked.erase(std::remove(parked.begin(), parked.end(), t), parked.end());
+        claimed.erase(std::remove(claimed.begin(), claimed.end(), t), claimed.end());
+      } else if (op == "notify_one" && Field(m, 4) == "1") claimed.push_back(Field(m, 5));
+      else if (op == "notify_all") claimed = parked;
     }
-    std::string best;
+    std::string best = "?";
     std::size_t best_wake = trace.size() + 1;
-    for (auto& [t, _] : parked) {
-      if (std::find(taken.begin(), taken.end(), t) != taken.end()) continue;
+    for (auto& t : parked) {
+      if (std::find(claimed.begin(), claimed.end(), t) != claimed.end()) continue;
       for (std::size_t k = p + 1; k < trace.size(); ++k) {
         auto& m = trace[k];
-        if (field(m, 0) == t && field(m, 1) == "M" && field(m, 2) == q && field(m, 3) == "wake") {
+        if (Field(m, 0) == t && Field(m, 1) == "M" && Field(m, 2) == q && Field(m, 3) == "wake") {
           if (k < best_wake) {
             best_wake = k;
             best = t;
@@ -273,33 +273,52 @@ void ResolveNotifies(std::vector<std::string>& trace) {
         }
       }
     }
-    l += " " + (best.empty() ? std::string("?") : best);
+    l += " " + best;
   }
 }
 
-std::vector<Scenario> AllScenarios() {
+std::vector<Scenario> Scenarios(const std::vector<std::pair<int, std::vector<int>>>& shapes) {
   std::vector<Scenario> out;
-  const std::vector<std::vector<int>> subs = {{1}, {2}, {1, 1}, {2, 1}};
-  for (int n : {1, 2})
-    for (auto& s : subs)
-      for (const char* stop : {"stop", "soft", "hard"})
-        for (bool race : {true, false}) out.push_back(Scenario{n, s, stop, race});
+  for (auto& [n, s] : shapes)
+    for (const char* stop : {"stop", "soft", "hard"})
+      for (bool race : {true, false}) out.push_back(Scenario{n, s, stop, race});
   return out;
 }
 
 }  // namespace
 
+// --set quick   : small shapes exhaustively under --pb (default 1); larger shapes exhaustively without preemption
+//                 (only the scheduler's choice of the next fiber at blocking points) and with random schedules
+// --set thorough: small shapes exhaustively under --pb (use 2), larger shapes under --pb - 1 (truncated at
+//                 --max-exec per scenario) and with random schedules
 int main(int argc, char** argv) {
   auto opt = vx::ParseOptions(argc, argv);
+  std::string set = "quick";
+  for (int i = 1; i + 1 < argc; ++i) {
+    if (std::string(argv[i]) == "--set") set = argv[i + 1];
+  }
   vx::Explorer ex(opt);
   InstallNamingHook();
-  for (auto& sc : AllScenarios()) {
+  auto run = [&](const Scenario& sc) {
     ex.Run(sc.Header(), [&] { RunScenario(sc); },
            [&](bool done) {
              auto r = Monitor(sc, done);
              ResolveNotifies(vx::gCtx->trace);
              return r;
            });
+  };
+  const auto small = Scenarios({{1, {1}}, {1, {2}}, {2, {1}}, {1, {1, 1}}});
+  const auto large = Scenarios({{2, {2}}, {2, {1, 1}}, {1, {2, 1}}, {2, {2, 1}}});
+  if (opt.has_replay || opt.mode == "random") {
+    for (auto& sc : small) run(sc);
+    for (auto& sc : large) run(sc);
+  } else {
+    for (auto& sc : small) run(sc);
+    ex.ctx.preempt_bound = set == "quick" ? 0 : std::max(0, opt.preempt_bound - 1);
+    for (auto& sc : large) run(sc);
+    ex.ctx.random_mode = true;
+    for (auto& sc : large) run(sc);
+    ex.ctx.random_mode = false;
   }
   ex.Report();
   return ex.stats.violations == 0 ? 0 : 1;
